@@ -72,6 +72,42 @@ fn run<P: Property>(p: P, args: &[String], quick_cases: usize, thorough_cases: u
     }
 }
 
+/// two harnesses under one property id (C07: the store and the store actor)
+fn run2<P: Property, Q: Property>(p: P, q: Q, args: &[String], quick: (usize, usize), thorough_n: (usize, usize)) -> ! {
+    if let Some(path) = arg(args, "--replay") {
+        let path = PathBuf::from(path);
+        let is_q = path.file_name().and_then(|f| f.to_str()).map(|f| f.contains(q.case_prefix()) && !q.case_prefix().is_empty()).unwrap_or(false);
+        let ok = if is_q { replay_property(&q, &path) } else { replay_property(&p, &path) }.unwrap_or_else(|e| {
+            println!("replay failed: {e:#}");
+            false
+        });
+        println!("replay: {}", if ok { "no mismatch (case passes)" } else { "case fails" });
+        std::process::exit(if ok { 0 } else { 1 });
+    }
+    let thorough = arg(args, "--tier").as_deref() == Some("thorough");
+    let seed: u64 = arg(args, "--seed").and_then(|s| s.parse().ok()).unwrap_or(1);
+    let mk = |cases: usize| RunCfg {
+        seed,
+        thorough,
+        cases,
+        replay_dir: PathBuf::from(arg(args, "--replay-dir").unwrap_or("/verif/replays".into())),
+        threads: arg(args, "--threads").and_then(|s| s.parse().ok()).unwrap_or(12),
+        budget_secs: std::env::var("VERIF_BUDGET_SECS").ok().and_then(|s| s.parse().ok()).unwrap_or(if thorough { 3000 } else { 300 }),
+    };
+    let out = arg(args, "--out").map(PathBuf::from);
+    let cfg1 = mk(if thorough { thorough_n.0 } else { quick.0 });
+    let cfg2 = mk(if thorough { thorough_n.1 } else { quick.1 });
+    start_watchdog(p.id(), cfg1.replay_dir.clone(), std::time::Duration::from_secs(std::env::var("VERIF_HANG_SECS").ok().and_then(|s| s.parse().ok()).unwrap_or(120)));
+    let r = run_property(&p, &cfg1).and_then(|a| run_property(&q, &cfg2).map(|b| merge_reports(a, b)));
+    match r {
+        Ok(report) => print_and_exit(&report, out.as_deref()),
+        Err(e) => {
+            println!("harness error: {e:#}");
+            std::process::exit(2)
+        }
+    }
+}
+
 fn main() {
     // panics inside cases are caught and reported; keep stderr quiet
     std::panic::set_hook(Box::new(|_| {}));
@@ -95,7 +131,7 @@ fn main() {
         "C14" => run(c14::C14::new(), &args, 500, 8000),
         "C15" => run(storeprops::StoreProp::new("C15"), &args, 2000, 30000),
         "C18" => run(storeprops::StoreProp::new("C18"), &args, 300, 4000),
-        "C07" => run(storeprops::StoreProp::new("C07"), &args, 2000, 30000),
+        "C07" => run2(storeprops::StoreProp::new("C07"), c14::C14::capabilities(), &args, (2000, 400), (30000, 6000)),
         _ => {
             eprintln!("usage: verif-harness <property> [--tier quick|thorough] [--seed N] [--cases N] [--out file] [--replay file]");
             std::process::exit(2)
